@@ -3,4 +3,4 @@
 cd /verif/coq
 head -n $(($2 - 1)) "$1" > /tmp/dbg_goal.v
 echo "Show. Abort." >> /tmp/dbg_goal.v
-coqc -Q theories ArmV -Q gen Gen /tmp/dbg_goal.v 2>&1 | grep -v "^Closed\|^$" | head -${3:-60}
+timeout 120 coqc -Q theories ArmV -Q gen Gen /tmp/dbg_goal.v 2>&1 | grep -v "^Closed\|^$" | head -${3:-60}
